@@ -322,6 +322,74 @@ func qeLateEnqueue(workers int) string {
 	return fmt.Sprintf("lateenq order=%s replies=%s", out, r)
 }
 
+// qeShutdownLive: the service is shut down while query events are still active. What they
+// allocated (listener goroutine, channel) must be released once their duration has passed.
+func qeShutdownLive(n int) string {
+	run, err := qeScenService("shared", 2, func() {})
+	if err != nil {
+		return "start-failed"
+	}
+	before := countListeners()
+	for i := 0; i < n; i++ {
+		if _, ok := qeStartEvent(run, func(res.QueryRequest) {}); !ok {
+			run.Stop()
+			return "no-query-subject"
+		}
+	}
+	during := countListeners() - before
+	run.Stop()
+	deadline := time.Now().Add(qeDuration + 2*time.Second)
+	left := countListeners() - before
+	for left > 0 && time.Now().Before(deadline) {
+		time.Sleep(20 * time.Millisecond)
+		left = countListeners() - before
+	}
+	return fmt.Sprintf("shutdownlive started=%d listeners-left=%d", during, left)
+}
+
+// qeRestartDuration: the same service is served twice with the query event duration
+// reconfigured in between; a query event of the second run expires after the new duration.
+func qeRestartDuration() string {
+	s := res.NewService("svc")
+	s.SetLogger(svc.NopLogger{})
+	s.SetQueryEventDuration(time.Hour)
+	s.Handle("q", res.GetResource(func(r res.GetRequest) { r.NotFound() }))
+	run, err := svc.Start(s)
+	if err != nil {
+		return "start-failed"
+	}
+	sd := make(chan struct{})
+	go func() { s.Shutdown(); close(sd) }() // Shutdown itself must have returned before reconfiguring
+	select {
+	case <-sd:
+	case <-time.After(5 * time.Second):
+		return "stop-hung"
+	}
+	<-run.Done
+	s.SetQueryEventDuration(50 * time.Millisecond)
+	run, err = svc.Start(s)
+	if err != nil {
+		return "restart-failed"
+	}
+	defer run.Stop()
+	nilCh := make(chan struct{}, 2)
+	start := time.Now()
+	if _, ok := qeStartEvent(run, func(q res.QueryRequest) {
+		if q == nil {
+			nilCh <- struct{}{}
+		}
+	}); !ok {
+		return "no-query-subject"
+	}
+	select {
+	case <-nilCh:
+		early := time.Since(start) < 25*time.Millisecond
+		return fmt.Sprintf("restartdur nil=T early=%v", map[bool]string{true: "T", false: "F"}[early])
+	case <-time.After(1500 * time.Millisecond):
+		return "restartdur nil=F early=F"
+	}
+}
+
 func qeScenario(a []string) string {
 	w := 2
 	if len(a) > 1 {
@@ -336,6 +404,10 @@ func qeScenario(a []string) string {
 		return qeQueued(w)
 	case "lateenq":
 		return qeLateEnqueue(w)
+	case "shutdownlive":
+		return qeShutdownLive(w)
+	case "restartdur":
+		return qeRestartDuration()
 	}
 	return "bad-op"
 }
